@@ -216,7 +216,8 @@ func main() {
 			continue
 		}
 		// ---- reference predicate (from the statement), per half of the message
-		complete := v["payload"] == "present" && v["secret"] != "absent"
+		// complete: payload, shared secret, and a registrant address that (when present) is an address
+		complete := v["payload"] == "present" && v["secret"] != "absent" && v["registrant"] != "5bytes"
 		transportOK := v["transport"] == "min" || v["transport"] == "prefix"
 		genOK := v["gen"] == "known"
 		covertOK := v["covert"] == "permitted" || v["covert"] == "name-permitted"
